@@ -7,9 +7,9 @@ plain text. A `TimeResult` argument is four fields `hour minute second desc` wit
 (a description that is not in `low_bound_map`) | the low bound. Range answer as `pd.*`:
 `timex TAB futureBegin TAB futureEnd TAB pastBegin TAB pastEnd` | `none` | `err:Other`.
   zt.less hour quarter half second less                         -> all minute second
-  zt.tp Y M D secs F|S lh lm ls ldesc rh rm rs rdesc            (S = short left: lm ls ignored)
+  zt.tp | zt.tpfixed Y M D secs F|S lh lm ls ldesc rh rm rs rdesc   (S = short left: lm ls ignored; fixed = the repaired variant)
   zt.tod Y M D secs cps
-  zt.mdtp fd pd dateTimex tpTimex bt et
+  zt.mdtp | zt.mdtpfixed fd pd dateTimex tpTimex bt et
   zt.m2tp Y M D secs both|begin|end fb pb t1 leftComment fe pe t2 rightAmPm
   zt.night Y M D secs cps
   zt.pod cps                                                    -> mo|mi|af|ev|ni|none
@@ -18,6 +18,7 @@ plain text. A `TimeResult` argument is four fields `hour minute second desc` wit
   zt.setunit cps|? inMap                                        -> timex | none
   zt.set unitT durT everydayT dateTimeT dateT   (`?` = absent)  -> timex TAB value | none
   zt.hol Y M D secs keycps A|D|C|R arg                          -> ok <timex> TAB F-Y-M-D TAB P-Y-M-D | none | raises
+  zt.holfixed Y M D secs keycps A|D|C|R arg cjkDigits           (the repaired year reading)
   zt.holfn keycps year                                          -> Y-M-D | err:raises | nokey
   zt.lunar keycps -> 0|1      zt.swiftyear cps -> int -/
 namespace RTV.Drv.ZhTPH
@@ -63,9 +64,14 @@ def dispatchZhTimePeriod (op : String) (args : List String) : Option String :=
   | "zt.tp", [y, m, d, s, k, lh, lm, ls, ld, rh, rm, rs, rd] =>
     let l := if k == "S" then getShortLeft (parseInt lh) ((parseDesc ld).getD none) else mkTR lh lm ls ld
     some (showRes (parseTimePeriod l (mkTR rh rm rs rd) (mkDT y m d s)))
+  | "zt.tpfixed", [y, m, d, s, k, lh, lm, ls, ld, rh, rm, rs, rd] =>
+    let l := if k == "S" then getShortLeft (parseInt lh) ((parseDesc ld).getD none) else mkTR lh lm ls ld
+    some (showRes (parseTimePeriodFixed l (mkTR rh rm rs rd) (mkDT y m d s)))
   | "zt.tod", [y, m, d, s, t] => some (showRes (timeOfDay (parseCps t) (mkDT y m d s)))
   | "zt.mdtp", [fd, pd, dt, tt, bt, et] =>
     some (showRes (mergeDateAndTimePeriods (parseDT fd) (parseDT pd) (str dt) (str tt) (parseDT bt) (parseDT et)))
+  | "zt.mdtpfixed", [fd, pd, dt, tt, bt, et] =>
+    some (showRes (mergeDateAndTimePeriodsFixed (parseDT fd) (parseDT pd) (str dt) (str tt) (parseDT bt) (parseDT et)))
   | "zt.m2tp", [y, m, d, s, k, fb, pb, t1, lc, fe, pe, t2, ra] =>
     some (showRes (mergeTwoTimePoints (mkDT y m d s) (parseEnds k) (parseDT fb) (parseDT pb) (str t1) (parseBool lc)
       (parseDT fe) (parseDT pe) (str t2) (parseBool ra)))
@@ -84,6 +90,10 @@ def dispatchZhTimePeriod (op : String) (args : List String) : Option String :=
     let yi : YearIn := match kind with
       | "D" => .digits (parseNat arg) | "C" => .cjk (parseInt arg) | "R" => .rel (parseInt arg) | _ => .absent
     some (showOut (zhMatch2date (mkDT y m d s) (parseCps k) yi))
+  | "zt.holfixed", [y, m, d, s, k, kind, arg, cj] =>
+    let yi : YearIn := match kind with
+      | "D" => .digits (parseNat arg) | "C" => .cjk (parseInt arg) | "R" => .rel (parseInt arg) | _ => .absent
+    some (showOut (zhMatch2dateFixed (mkDT y m d s) (parseCps k) yi (parseInt cj)))
   | "zt.holfn", [k, yr] =>
     some (match RTV.Holiday.dictGet holidayTable (parseCps k) with
           | none => "nokey"
